@@ -144,8 +144,9 @@ let handle kind fs obs =
         (show_rr r, if c04 || unconstrained then None else Some (resR_eqb (parse_rr im) (c_str_spec get spec_sl (n 1))))
       | _ -> ("?", None)) in
     (match ok with Some true -> incr ncounted | Some false -> incr ncounted; incr nfail | None -> ());
-    (* queries outside this property's scope are not compared either: print the implementation's own text *)
-    (match ok with None -> im | Some _ -> m)) qs in
+    (* queries the oracle has no verdict on (another property's query, or a point the spec leaves open) are still
+       COMPARED: the model's own answer is printed, never the implementation's text *)
+    ignore im; m) qs in
   tag (if file then "file" else "view"); tag (if fmt64 then "pe64" else "pe32");
   let mobs = if bang && impl = [] then "r=" ^ String.concat "," model else "r=" ^ String.concat "," model in
   let taglist = String.concat "," (Hashtbl.fold (fun k () acc -> k :: acc) tags []) in
